@@ -52,6 +52,12 @@ theorem c07_fast_eq_model (src : Bytes) :
     refine ⟨e, dst', hp, ht, ?_⟩
     rw [← ht, List.length_take]; omega
 
+/-- … and the tail-recursive formatters used for inputs whose output is several MiB
+(`unicodeFormatFast`, `utf16FormatFast`) are the value-level formatters. -/
+theorem c07_format_fast_eq (s : Bytes) :
+    unicodeFormatFast s = unicodeFormat s ∧ utf16FormatFast s = utf16Format s :=
+  formatFast_eq s
+
 /-- Non-vacuity: the fast evaluator on a pair followed by a truncated escape. -/
 example : parseFast utf16DecQ [92, 117, 68, 56, 51, 68, 92, 117, 68, 69, 48, 48, 92, 117, 48] =
     [240, 159, 152, 128, 92, 117, 48] := by decide
